@@ -477,6 +477,11 @@ class SymtableCodeGen(AbstractCodeGen):
         out = ()
         for el in data[0]:
             if isinstance(el, (str, unicode)):
+                if out:
+                    # it would be expanded to the whole OID of that node
+                    raise error.PySmiSemanticError(
+                        'plain name %s after the first sub-identifier of an OID value' % el)
+
                 parent = self.transOpers(el)
                 self._parentOids.add(parent)
                 out += ((parent, self._importMap.get(parent, self.moduleName[0])),)
